@@ -63,6 +63,13 @@ func newC15World(capacity uint32, freeSmall int) *c15World {
 
 func (w *c15World) pooled() int { return int(w.pool.tail - w.pool.head) }
 
+func (w *c15World) oldestPooled() *Stream {
+	if w.pooled() == 0 {
+		return nil
+	}
+	return w.pool.streams[w.pool.head%uint64(w.pool.capacity)]
+}
+
 // get performs GetStream for a caller and checks the hand-out oracles (runs on a client-process thread).
 func (w *c15World) get(c int) {
 	st, err := w.sm.GetStream()
@@ -156,10 +163,15 @@ func (w *c15World) op(o string) bool {
 		vrt.WaitThreads(t)
 		w.held[c] = nil
 		w.lastPut = st
-	case 'X': // the peer closes its end of the caller's stream (or of the stream put back last)
+	case 'X': // the peer closes its end of the caller's stream (or of the stream put back last; "Xo": of the OLDEST pooled stream)
 		tgt := st
 		if tgt == nil {
 			tgt = w.lastPut
+		}
+		if o == "Xo" {
+			if tgt = w.oldestPooled(); tgt == nil {
+				return false
+			}
 		}
 		ss := w.serverStream(tgt)
 		if ss == nil {
@@ -167,9 +179,13 @@ func (w *c15World) op(o string) bool {
 		}
 		t := vrt.GoProc("peer-close", 2, func() { ss.Close() })
 		vrt.WaitThreads(t)
-	case 'L': // late response on the stream that was put back last
-		ss := w.serverStream(w.lastPut)
-		if ss == nil || w.lastPut == w.held[0] || w.lastPut == w.held[1] {
+	case 'L': // late response on the stream that was put back last ("Lo": on the oldest pooled stream)
+		lp := w.lastPut
+		if o == "Lo" {
+			lp = w.oldestPooled()
+		}
+		ss := w.serverStream(lp)
+		if ss == nil || lp == w.held[0] || lp == w.held[1] {
 			return false
 		}
 		t := vrt.GoProc("late-response", 2, func() { c09Flush(ss, 77, 0, 3) })
@@ -236,7 +252,7 @@ func (w *c15World) finish(what string) {
 	}
 }
 
-var c15Alphabet = []string{"Ga", "Gb", "Ua", "Wa", "Ra", "Pa", "Pb", "Xa", "L", "Fa", "K"}
+var c15Alphabet = []string{"Ga", "Gb", "Ua", "Wa", "Ra", "Pa", "Pb", "Xa", "L", "Fa", "K"} // ("Ub" appears in fixed prefixes only)
 
 func c15HistoryBody(hist []string, capacity uint32) func() {
 	return func() {
@@ -317,7 +333,11 @@ func TestVerif_C15(t *testing.T) {
 		return
 	}
 	if h := os.Getenv("VERIF_C15_HIST"); h != "" {
-		x := vrt.RunOnce(opts, nil, c15HistoryBody(strings.Fields(h), 1))
+		capa := uint32(1)
+		if os.Getenv("VERIF_C15_CAP") == "2" {
+			capa = 2
+		}
+		x := vrt.RunOnce(opts, nil, c15HistoryBody(strings.Fields(h), capa))
 		fmt.Printf("DEBUG hist %q: fail=%+v steps=%d\n", h, x.Fail, len(x.Steps))
 		return
 	}
@@ -363,6 +383,46 @@ func TestVerif_C15(t *testing.T) {
 					}
 				}
 				frontier = next
+			}
+			// histories from a non-initial state: two streams idle in the pool (capacity 2), then every sequence of
+			// depth-2 further operations, the alphabet extended by what can happen to the OLDER of the pooled streams
+			if capacity == 2 {
+				pre := []string{"Ga", "Ua", "Gb", "Ub", "Pa", "Pb"} // (used once each: the server knows a stream from its first message on)
+				alpha2 := append(append([]string{}, c15Alphabet...), "Xo", "Lo")
+				frontier := [][]string{pre}
+				for d := 0; d < depth-2; d++ {
+					var next [][]string
+					for _, h := range frontier {
+						for _, o := range alpha2 {
+							hist := append(append([]string{}, h...), o)
+							n++
+							mine := n%w.shardN == w.shardI
+							if !c15Enabled(hist) {
+								continue
+							}
+							next = append(next, hist)
+							if !mine || w.expired() {
+								if w.expired() {
+									res.Exhaustive, res.CapHit = false, "deadline"
+								}
+								continue
+							}
+							x := vrt.RunOnce(opts, nil, c15HistoryBody(hist, capacity))
+							res.Execs++
+							res.Transitions += int64(len(x.Steps))
+							if x.Fail != nil {
+								x.Fail.Params = map[string]interface{}{"hist": hist, "cap": capacity}
+								res.FailCount[x.Fail.Sig]++
+								if res.FailCount[x.Fail.Sig] == 1 {
+									x.Fail.Msg = fmt.Sprintf("history %v (pool capacity %d): %s", hist, capacity, x.Fail.Msg)
+									res.Failures = append(res.Failures, x.Fail)
+								}
+							}
+							res.Outcomes[fmt.Sprintf("two-pooled+depth%d", len(hist)-len(pre))]++
+						}
+					}
+					frontier = next
+				}
 			}
 			// a few longer histories around the pool's capacity (two callers returning and re-taking streams)
 			for _, hs := range []string{"Ga Gb Pa Pb Ga Gb", "Ga Gb Ua Pa Pb Gb Ga", "Ga Ua Pa Gb Ua Pb Ga Gb", "Ga Gb Pb Pa Gb Ga Pa Pb"} {
